@@ -370,10 +370,23 @@ pub struct ChildServer {
 }
 impl ChildServer {
     pub fn start() -> Result<ChildServer, String> {
+        ChildServer::start_with(None, false)
+    }
+    /// `address`: None = a fresh unix path; `process_service`: the standard service with the
+    /// line-protocol upgrade handler (what C13's rounds speak after an upgrade).
+    pub fn start_with(address: Option<String>, process_service: bool) -> Result<ChildServer, String> {
         let dir = run_dir();
-        let address = format!("unix:{}/s", dir.display());
+        let address = address.unwrap_or_else(|| format!("unix:{}/s", dir.display()));
         let exe = std::env::current_exe().map_err(|e| e.to_string())?;
-        let child = Command::new(exe).arg("serve").arg(&address).stdin(Stdio::null()).stdout(Stdio::null()).stderr(Stdio::null()).spawn().map_err(|e| e.to_string())?;
+        let mut cmd = Command::new(exe);
+        cmd.arg("serve").arg(&address).stdin(Stdio::null()).stdout(Stdio::null()).stderr(Stdio::null());
+        cmd.env_remove("VH_PROCESS_SERVICE");
+        if process_service {
+            cmd.env("VH_UPMODE", "line");
+        } else {
+            cmd.env_remove("VH_UPMODE");
+        }
+        let child = cmd.spawn().map_err(|e| e.to_string())?;
         let cs = ChildServer { child, address, dir };
         let t0 = std::time::Instant::now();
         loop {
@@ -661,7 +674,13 @@ pub fn replay(ctx: &Ctx, w: &Value) {
 
 /// `vh serve <address>`: the standard service behind listen(), until killed.
 pub fn serve(address: &str) -> i32 {
-    let svc = if std::env::var("VH_PROCESS_SERVICE").is_ok() { process_service() } else { standard_service(SvcCfg::default()) };
+    let svc = if std::env::var("VH_PROCESS_SERVICE").is_ok() {
+        process_service()
+    } else if std::env::var("VH_UPMODE").map(|v| v == "line").unwrap_or(false) {
+        standard_service(SvcCfg { up: UpMode::Line, ..Default::default() })
+    } else {
+        standard_service(SvcCfg::default())
+    };
     let max = std::env::var("VH_MAX_WORKERS").ok().and_then(|v| v.parse().ok()).unwrap_or(200usize);
     match varlink::listen(svc, address, &varlink::ListenConfig { max_worker_threads: max, ..Default::default() }) {
         Ok(()) => 0,
